@@ -247,7 +247,7 @@ def cached_methods(idx: ProgramIndex) -> List[Tuple[ClassInfo, FuncInfo, str, bo
     return out
 
 
-def _presence_atoms(test: ast.AST, sn: str) -> List[Tuple[str, ast.AST, bool]]:
+def _presence_atoms(test: ast.AST, sn: str, aliases: Optional[Dict[str, str]] = None) -> List[Tuple[str, ast.AST, bool]]:
     """(attribute, atom, value of the atom when the attribute is ABSENT/None) for every presence test of a self attribute:
     hasattr(self, "A"), getattr(self, "A", None) is [not] None, self.A is [not] None, "A" in self.__dict__ / vars(self)"""
     out = []
@@ -263,6 +263,8 @@ def _presence_atoms(test: ast.AST, sn: str) -> List[Tuple[str, ast.AST, bool]]:
                 a = const_str(l.args[1])
             elif isinstance(l, ast.Attribute) and isinstance(l.value, ast.Name) and l.value.id == sn:
                 a = l.attr
+            elif isinstance(l, ast.Name) and aliases and l.id in aliases:
+                a = aliases[l.id]  # a local that was read from the attribute: `c = getattr(self, "A", None)` ... `if c is None`
             if a:
                 out.append((a, n, isinstance(n.ops[0], ast.Is)))
         elif isinstance(n, ast.Compare) and len(n.ops) == 1 and isinstance(n.ops[0], (ast.In, ast.NotIn)) and const_str(n.left) and src(n.comparators[0]) in ("%s.__dict__" % sn, "vars(%s)" % sn):
@@ -282,10 +284,18 @@ def attribute_caches(idx: ProgramIndex) -> List[Tuple[ClassInfo, str, List[FuncI
             if m.name == "__init__" or not m.params or m.kind in ("staticmethod", "classmethod"):
                 continue
             sn = m.params[0]
+            aliases: Dict[str, str] = {}
+            for x in ast.walk(m.node):
+                if isinstance(x, ast.Assign) and len(x.targets) == 1 and isinstance(x.targets[0], ast.Name):
+                    v = x.value
+                    if isinstance(v, ast.Call) and call_name(v) == "getattr" and len(v.args) >= 2 and src(v.args[0]) == sn and const_str(v.args[1]):
+                        aliases[x.targets[0].id] = const_str(v.args[1])
+                    elif isinstance(v, ast.Attribute) and isinstance(v.value, ast.Name) and v.value.id == sn and v.attr.startswith("_"):
+                        aliases[x.targets[0].id] = v.attr
             for n in ast.walk(m.node):
                 if not isinstance(n, ast.If):
                     continue
-                for a, atom, absent_value in _presence_atoms(n.test, sn):
+                for a, atom, absent_value in _presence_atoms(n.test, sn, aliases):
                     if a == "_memoize_cache" or a == "prediction_strategy":
                         continue  # the memo dict itself (C03-7) and the strategy slot (checked below) have their own rules
                     v = eval_guard(n.test, {src(atom): absent_value})
